@@ -10,6 +10,7 @@ import (
 	"verifharness/core"
 	"verifharness/gen"
 	"verifharness/model"
+	"verifharness/types"
 )
 
 // C08: type definitions are validated.
@@ -96,6 +97,9 @@ func c08Plants() []plant {
 				{T([]float64(nil)), "flat"}, {reflect.SliceOf(leaf), "intern"}, {T(map[int]string(nil)), "intern"}, {structOf(), "flat"},
 			}[r.IntN(10)]
 			return structOf(sf("A", c.t, fmt.Sprintf(`plenc:"1,%s"`, c.opt)), sf("B", tInt, `plenc:"2"`))
+		}},
+		{"recursive-invalid", true, func(r *rand.Rand) reflect.Type {
+			return types.InvalidRecursive[r.IntN(len(types.InvalidRecursive))]
 		}},
 		// valid neighbours: must be accepted and must work
 		{"valid-neighbour", false, func(r *rand.Rand) reflect.Type {
@@ -279,6 +283,7 @@ func c08Case(c *core.Ctx, idx int) {
 			if rec.WantSample() {
 				rec.Sample(map[string]any{"config": name, "plant": pl.name, "where": where, "type": typeString(typ), "error": cerr.Error()})
 			}
+			c08AfterRejection(c, tc, r)
 			return
 		}
 		// valid neighbour
@@ -309,6 +314,62 @@ func c08Case(c *core.Ctx, idx int) {
 		c08Works(c, tc, r)
 		c08Skipped(c, tc, r)
 	}
+}
+
+// c08AfterRejection: a failed build must leave nothing behind. The same instance is asked for every
+// part of the rejected definition and for containers around its struct types: valid parts must
+// give working codecs, invalid ones must still be rejected.
+func c08AfterRejection(c *core.Ctx, tc *tcase, r *rand.Rand) {
+	rec := c.Rec
+	var subs []subType
+	collectSubTypes(tc.typ, "", map[subType]bool{}, &subs)
+	var extra []subType
+	for _, st := range subs {
+		if st.t.Kind() != reflect.Struct || st.t == model.TimeT || st.t.PkgPath() == model.NullIntT.PkgPath() {
+			continue // (null.* as slice element or pointer target: known finding D24)
+		}
+		extra = append(extra, subType{reflect.PointerTo(st.t), ""}, subType{reflect.SliceOf(st.t), ""}, subType{reflect.MapOf(tString, st.t), ""})
+		if st.t.Comparable() && !gen.HasRef(st.t) {
+			extra = append(extra, subType{reflect.MapOf(st.t, tInt), ""})
+		}
+	}
+	for _, st := range append(subs[1:], extra...) {
+		if st.t.Kind() == reflect.Interface || st.t.Kind() == reflect.Chan || st.t.Kind() == reflect.Func {
+			continue
+		}
+		why := tc.cfg.Validate(st.t, st.opt)
+		if why == "" && tc.cfg.Repeated(st.t, st.opt) {
+			continue // D25: no framing at top level
+		}
+		var err error
+		pn := core.Guard(func() { _, err = tc.p.CodecForTypeWithTag(st.t, st.opt) })
+		rec.Eval(1)
+		desc := fmt.Sprintf("[%s] after CodecForType rejected %s, the same instance was asked for (%s, %q)", tc.name, typeString(tc.typ), typeString(st.t), st.opt)
+		if pn != "" {
+			rec.Violation("codec-panic", desc+": panic "+pn, nil)
+			return
+		}
+		if why != "" && err == nil {
+			// only the must-reject families are demanded; here the part is invalid by the same rules
+			rec.Violation("accepted-invalid", fmt.Sprintf("%s: accepted although it is invalid (%s): a failed build left a codec behind", desc, why), nil)
+			return
+		}
+		if why == "" {
+			if err != nil {
+				rec.Violation("valid-type-rejected", fmt.Sprintf("%s: %v", desc, err), nil)
+				return
+			}
+			if st.opt == "" && st.t.Kind() != reflect.Ptr {
+				sub := &tcase{cfg: tc.cfg, name: tc.name, p: tc.p, typ: st.t}
+				before := rec.Violations()
+				c08Works(c, sub, r)
+				if rec.Violations() != before {
+					return
+				}
+			}
+		}
+	}
+	rec.Count("post_rejection_probes", 1)
 }
 
 // c08Works: an accepted definition gives a codec that round-trips
